@@ -50,7 +50,7 @@ UNITS = {
     'K_ddToDouble': dd('DD::ToDouble', 0, 'm_ToDouble_0', ['K_ddDoubleValue']),
     # --- binary64: orientation index = filter, else sign of the DD determinant; DD line intersection
     'K_filterF': dict(src=DDH, qual='geos::algorithm::CGAlgorithmsDD::orientationIndexFilter', nparams=6, imports=F,
-                      gname='c_orientationIndexFilter_6', enum_scopes=ES),
+                      gname='c_orientationIndexFilter_6', enum_scopes=ES, named_literals=True),
     'K_orientationDD': dict(src=DDH, qual='OrientationDD', nparams=1, imports=F, gname='c_OrientationDD_1', enum_scopes=ES,
                             deps=['K_ddLt', 'K_ddGt']),
     'K_orientationIndexF': dict(src=DDH, qual='geos::algorithm::CGAlgorithmsDD::orientationIndex', nparams=6, imports=F,
